@@ -148,9 +148,10 @@ def shrink_cases(case):
 
 
 def wire_total(ctx):
-    # bytes the calling (initiating) process has written so far, on all its pipes and sockets.  (Not the sum over all
-    # pipes of the world: a via master may still be forwarding the tail of an *earlier* message to its sub.)
-    return getattr(ctx.s.current.proc, "bytes_written", 0)
+    # bytes the calling thread has written so far, on all pipes and sockets.  (Not the sum over all pipes of the world:
+    # a via master may still be forwarding the tail of an *earlier* message to its sub; and not the whole process: its
+    # receiver thread may be sending the close of an earlier, dropped channel at that moment.)
+    return getattr(ctx.s.current, "bytes_written", 0)
 
 
 def load_module(path, name):
